@@ -250,7 +250,7 @@ func authCase(c *h.Case) {
 // ---------------------------------------------------------------------------------------------
 // lifecycle
 
-var lifeKinds = []string{"timeout", "gate-close", "busy-close", "visitor-gone", "owner-gone", "dup-client", "unknown-sid", "gate-close", "busy-close", "late-client"}
+var lifeKinds = []string{"timeout", "gate-close", "busy-close", "visitor-gone", "owner-gone", "dup-client", "unknown-sid", "gate-close", "busy-close", "late-client", "recover-after-failed-handover"}
 
 // graceTimeout: bounded-progress watchdog for the controller's NatHoleTimeout path (3 x timer + 10 s).
 func graceTimeout() time.Duration { return time.Duration(3*natHoleTimeoutS+10) * time.Second }
@@ -281,7 +281,7 @@ func lifeCase(c *h.Case, lo int) {
 	cc := countCreated(pfx)
 	defer cc.rm()
 	book := newTidBook()
-	supply := kind != "busy-close"
+	supply := kind != "busy-close" && kind != "recover-after-failed-handover"
 	O, err := dialOwner("o", supply)
 	if err != nil {
 		run.Inconclusive("owner login failed")
@@ -458,6 +458,86 @@ func lifeCase(c *h.Case, lo int) {
 		}
 		sig += fmt.Sprintf("|%d|%v", nReq, closing)
 		run.Count("busy_owner_requests", int64(nReq))
+
+	case "recover-after-failed-handover":
+		// the owner does not answer the first ReqWorkConn: the hand-over of the first sid fails after userConnTimeout
+		// (that request may go unanswered). The owner then supplies work connections as usual: the proxy is still
+		// registered, so the next correctly signed request must be served
+		request(0)
+		if !waitCreated(1) {
+			run.Inconclusive("recover: first session not created")
+			return
+		}
+		first := cc.list()
+		for _, s := range first {
+			ledger.timeoutPath(s)
+		}
+		if !h.Eventually(10*time.Second, func() bool { return O.p.ReqWorkConnSeen.Load() >= 1 }) {
+			run.Inconclusive("recover: no ReqWorkConn for the first sid")
+			return
+		}
+		// the work-connection wait (userConnTimeout) and the session's wait for the owner (NatHoleTimeout, longer) start
+		// together: once the first session has left the table the hand-over has failed
+		if left := waitGone(first, time.Duration(natHoleTimeoutS)*time.Second+graceTimeout()); len(left) > 0 {
+			for _, s := range left {
+				ledger.judged(s)
+			}
+			c.Violation("session-not-removed-after-timeout", "session %v: owner supplied no work connection; still in the session table after timeout %d s + grace", left, natHoleTimeoutS)
+			return
+		}
+		time.Sleep(1500 * time.Millisecond)
+		stop := make(chan struct{})
+		defer close(stop)
+		go O.supplyFrom(O.p.ReqWorkConnSeen.Load(), stop)
+		served := false
+		var detail []string
+		for try := 1; try <= 2 && !served; try++ {
+			// still registered? (pre-check is answered from the controller's client table)
+			ptid := fmt.Sprintf("%spre%d", pfx, try)
+			book.sent(V, ptid)
+			_ = V.Send(&msg.NatHoleVisitor{TransactionID: ptid, ProxyName: name, PreCheck: true})
+			pre, _, perr := waitResp(V, ptid, 10*time.Second)
+			if perr != nil || pre.Error != "" {
+				run.Inconclusive("recover: pre-check not ok")
+				return
+			}
+			if _, err := O.p.Ping(10 * time.Second); err != nil {
+				run.Inconclusive("recover: owner's control not alive")
+				return
+			}
+			for len(O.ch(name)) > 0 {
+				<-O.ch(name)
+			}
+			vtid := request(try)
+			var sid string
+			select {
+			case sid = <-O.ch(name):
+			case <-time.After(time.Duration(3*natHoleTimeoutS+userConnTimeoutS) * time.Second):
+				detail = append(detail, fmt.Sprintf("request %d: no sid reached the owner in %d s (ReqWorkConn seen by the owner: %d)", try, 3*natHoleTimeoutS+userConnTimeoutS, O.p.ReqWorkConnSeen.Load()))
+				continue
+			}
+			ctid := fmt.Sprintf("%so%d", pfx, try)
+			book.sent(O.p, ctid)
+			_ = O.p.Send(&msg.NatHoleClient{TransactionID: ctid, ProxyName: name, Sid: sid, MappedAddrs: goodObs(c, "c").Mapped})
+			ledger.clientSent(sid)
+			vr, _, _ := waitResp(V, vtid, 25*time.Second)
+			cr, _, _ := waitResp(O.p, ctid, 25*time.Second)
+			if vr == nil || cr == nil || vr.Error != "" || cr.Error != "" || vr.Sid != sid || cr.Sid != sid {
+				detail = append(detail, fmt.Sprintf("request %d: sid %s handed over, visitor response %+v, owner response %+v", try, sid, vr, cr))
+				continue
+			}
+			ledger.completed(sid, cr.DetectBehavior.ReadTimeoutMs)
+			served = true
+			sig += fmt.Sprintf("|served-at-%d", try)
+		}
+		for _, s := range cc.list() {
+			ledger.timeoutPath(s)
+		}
+		if !served {
+			c.Violation("xtcp-proxy-dead-after-one-failed-sid-handover", "xtcp proxy %s: the owner left one ReqWorkConn unanswered (first sid hand-over failed after userConnTimeout %d s), then supplied work connections normally; the proxy is still registered (pre-check ok, owner's control answers pings) but two further correctly signed requests were not served: %v",
+				name, userConnTimeoutS, detail)
+		}
+		run.Count("recover_after_failed_handover", 1)
 
 	case "visitor-gone", "owner-gone":
 		request(0)
